@@ -345,10 +345,10 @@ def _crn_result(case, consume):
 def _crn_records(res):
     rank = {k: i for i, k in enumerate(res["trace"]["keys"])}
     out = []
-    for lab, (species, events) in res["runs"]:
-        out.append([[[n, rank[k]] for n, k in species],
-                    [[n, step, ri, int(name == "r%d" % ri), cid, app, int(bool(ok)), rs, ps]
-                     for n, step, ri, name, cid, app, ok, rs, ps in events]])
+    for lab, recs in res["runs"]:
+        out.append([[[[n, rank[k]] for n, k in species],
+                     [[n, step, ri, int(name == "r%d" % ri), cid, app, int(bool(ok)), rs, ps]
+                      for n, step, ri, name, cid, app, ok, rs, ps in events]] for species, events in recs])
     return out
 
 
@@ -410,15 +410,16 @@ def coq_case(case):
         cid = [rules.index(r) for r in rules]
         if any(not same for _, _, _, same in t["table"]):
             return "L []"                # a result that does not carry its task's (index, mixture): never equals the impl
-        cfg = "(CrnCfg %s %s %s %s %s %s %s)" % (
+        cfg = "(CrnCfg %s %s %s %s %s %s %s %s %s %s)" % (
             clist([cpair(cnat(a), cN(c)) for a, c in zip(t["arity"], cid)]), cnat(case["repeats"]),
             cnat(case.get("max_components", 3)), cbool(case.get("use_frontier", True)),
             cbool(case.get("dedup_across_rules", False)),
             cN(50000 if case.get("max_mix") is None else case["max_mix"]),
-            cN(200000 if case.get("max_tasks") is None else case["max_tasks"]))
+            cN(200000 if case.get("max_tasks") is None else case["max_tasks"]),
+            cbool(case.get("skip_no_change", True)), cbool(case.get("allow_empty_side", False)), cbool(case.get("dedup_delta", True)))
         tb = clist([cpair(cpair(cN(cid[ti]), clist([cN(rank[x]) for x in tm])),
                           clist([clist([cN(rank[x]) for x in m]) for m in mixes])) for ti, tm, mixes, _ in t["table"]])
-        seeds = clist([("None" if x is None else "(Some %s)" % cN(rank[x])) for x in t["seeds"]])
+        seeds = clist([clist([("None" if x is None else "(Some %s)" % cN(rank[x])) for x in row]) for row in t["seeds"]])
         runs = clist([cpair(cbool(False), cnat(0))] + [cpair(cbool(True), cnat(w)) for w in case["workers"]])
         return "run_crn %s %s %s %s" % (cfg, tb, seeds, runs)
     side = _read_side(case)
@@ -581,20 +582,23 @@ def _oracle_crn(case):
     rules = list(case["rules"])
     base_lab, base = res["runs"][0]
     fails = []
-    for lab, rec in res["runs"]:
-        for n, step, ri, name, cid, app, ok, rs, ps in rec[1]:
-            if not (0 <= ri < len(rules)) or name != "r%d" % ri or cid != rules.index(rules[ri]) or not ok:
-                fails.append(dict(clause="crn-event-rule", detail="%s: event node %d (step %d) says rule_index=%r rule_name=%r "
-                                  "but carries the content of rule %r (label/arcs consistent: %r)" % (lab, n, step, ri, name, cid, ok)))
+    for lab, recs in res["runs"]:
+        for rec in recs:
+            for n, step, ri, name, cid, app, ok, rs, ps in rec[1]:
+                if not (0 <= ri < len(rules)) or name != "r%d" % ri or cid != rules.index(rules[ri]) or not ok:
+                    fails.append(dict(clause="crn-event-rule", detail="%s: event node %d (step %d) says rule_index=%r rule_name=%r "
+                                      "but carries the content of rule %r (label/arcs consistent: %r)" % (lab, n, step, ri, name, cid, ok)))
+                    break
+    for lab, recs in res["runs"][1:]:
+        for b, (rb, rp) in enumerate(zip(base, recs)):
+            if rp != rb:
+                ev_b, ev_p = rb[1], rp[1]
+                d = next((i for i, (a, b_) in enumerate(zip(ev_b, ev_p)) if a != b_), min(len(ev_b), len(ev_p)))
+                fails.append(dict(clause="workers-syncrn-events",
+                                  detail="%s differs from %s after build call %d: %d/%d species, %d/%d events; first differing event: serial %r, parallel %r"
+                                  % (lab, base_lab, b + 1, len(rp[0]), len(rb[0]), len(ev_p), len(ev_b),
+                                     ev_b[d] if d < len(ev_b) else None, ev_p[d] if d < len(ev_p) else None)))
                 break
-    for lab, rec in res["runs"][1:]:
-        if rec != base:
-            ev_b, ev_p = base[1], rec[1]
-            d = next((i for i, (a, b) in enumerate(zip(ev_b, ev_p)) if a != b), min(len(ev_b), len(ev_p)))
-            fails.append(dict(clause="workers-syncrn-events",
-                              detail="%s differs from %s: %d/%d species, %d/%d events; first differing event: serial %r, parallel %r"
-                              % (lab, base_lab, len(rec[0]), len(base[0]), len(ev_p), len(ev_b),
-                                 ev_b[d] if d < len(ev_b) else None, ev_p[d] if d < len(ev_p) else None)))
     return fails[:3]
 
 
@@ -787,25 +791,43 @@ def _runtime_cases(tier, rng, us, ec):
     jobs = [[1, False, 1], [2, False, 1], [3, False, 1], [8, False, 1], [1, True, 2]] if q else \
         [[k, False, 1] for k in range(1, 9)] + [[1, True, 2], [1, True, 5], [2, True, 2]]
     cases.append(dict(kind="runtime", what="batch_jobs", subs=[r.split(">>")[0] for r in rx], rules=rx[:3], inv=False, jobs=jobs))
-    data = []
-    for r in (us[i0:i0 + (8 if q else 40)]):
-        alt = us[(us.index(r) + 1) % len(us)]
-        data.append(dict(gt=r, m1=r, m2=alt if rng.random() < 0.5 else r))
-    # failing entries in the MIDDLE of the list: a mapped reaction that does not parse, an empty one, a ground truth
-    # RDKit refuses (each is answered False by the serial code; every worker count must put the False at the same place)
-    mid = len(data) // 2
-    data[mid]["m1"] = "not_a_smiles>>C"
-    data[mid - 1]["m2"] = ""
-    data[mid + 1]["gt"] = "C(C)(C)(C)(C)C>>CC"
-    cases.append(dict(kind="runtime", what="validate", data=data, jobs=[1, 2, 3, 5, 8] if q else list(range(1, 9))))
-    bd = [dict(reactions=r, n=i) for i, r in enumerate(ec[:(20 if q else 150)])]
+    def vdata(n, off, bad_gt=True):
+        data = []
+        for k in range(n):
+            r = us[(i0 + off + k) % len(us)]
+            alt = us[(i0 + off + k + 1) % len(us)]
+            data.append(dict(gt=r, m1=r, m2=alt if rng.random() < 0.5 else r))
+        # failing entries in the MIDDLE of the list: a mapped reaction that does not parse, an empty one, a ground truth
+        # RDKit refuses (each is answered False by the serial code; every worker count must put the False at the same place)
+        mid = len(data) // 2
+        if n >= 4:
+            data[mid]["m1"] = "not_a_smiles>>C"
+            data[mid - 1]["m2"] = ""
+            if bad_gt:              # (with ignore_tautomers=False an unusable ground truth makes every worker count raise alike)
+                data[mid + 1]["gt"] = "C(C)(C)(C)(C)C>>CC"
+        return data
+    # table sizes around 8 rows per worker (a realistic place for a "send slices to the workers" shortcut), plus tiny tables
+    if q:
+        cases.append(dict(kind="runtime", what="validate", data=vdata(34, 0), jobs=[1, 2, 4]))
+        cases.append(dict(kind="runtime", what="validate", data=vdata(25, 7), jobs=[1, 3]))
+        cases.append(dict(kind="runtime", what="validate", data=vdata(17, 3, False), jobs=[1, 2], opts=dict(ignore_aromaticity=True, ignore_tautomers=False)))
+        cases.append(dict(kind="runtime", what="validate", data=vdata(9, 11), jobs=[1, 2, 5], method="ITS"))
+        cases.append(dict(kind="runtime", what="validate", data=vdata(1, 5), jobs=[1, 2]))
+    else:
+        cases.append(dict(kind="runtime", what="validate", data=vdata(70, 0), jobs=list(range(1, 9))))
+        cases.append(dict(kind="runtime", what="validate", data=vdata(33, 9), jobs=[1, 2, 3, 4], method="ITS"))
+        cases.append(dict(kind="runtime", what="validate", data=vdata(17, 3, False), jobs=[1, 2], opts=dict(ignore_aromaticity=True, ignore_tautomers=False)))
+        cases.append(dict(kind="runtime", what="validate", data=vdata(1, 5), jobs=[1, 2]))
+    bd = [dict(reactions=r, n=i) for i, r in enumerate(ec[:(40 if q else 150)])]
     for i in range(0, len(bd), 4):                              # unbalance every fourth reaction
         bd[i]["reactions"] = bd[i]["reactions"].split(">>")[0] + ">>" + bd[(i + 1) % len(bd)]["reactions"].split(">>")[1]
     mid = len(bd) // 2 + 1                                      # malformed / unparsable entries in the middle
     bd[mid]["reactions"] = "not_a_smiles>>C"
     bd[mid + 2]["reactions"] = "C(C)(C)(C)(C)C>>CC"
     bd[mid + 3]["reactions"] = ">>"
-    cases.append(dict(kind="runtime", what="balance", data=bd, jobs=[1, 2, 3, 8] if q else list(range(1, 9))))
+    cases.append(dict(kind="runtime", what="balance", data=bd, jobs=[1, 2, 3, 4] if q else list(range(1, 9)), second_pass=True))
+    cases.append(dict(kind="runtime", what="balance", data=bd[:1], jobs=[1, 2]))
+    cases.append(dict(kind="runtime", what="balance", data=[], jobs=[1, 2]))
     cases.append(dict(kind="runtime", what="syncrn",
                       rules=["[C:1][OH:2]>>[C:1]=[O:2]" if False else "[CH2:1][OH:2].[O:3]=[C:4][OH:5]>>[CH2:1][O:5][C:4]=[O:3].[OH2:2]",
                              "[CH:1]=[O:2].[NH2:3]>>[CH:1]=[N:3].[OH2:2]"],
@@ -852,6 +874,22 @@ def _gen_crn(rng, fixed=None):
         if rng.random() < 0.2:
             seeds.insert(rng.randrange(len(seeds) + 1), "C(C)(C)(C)(C)C")       # a seed RDKit refuses
     c.update(kind="crn", rules=[CRN_RULES[n] for n in names], rule_names=names, seeds=seeds, workers=[1, 2, 3])
+    if fixed is None or rng.random() < 0.5:
+        z = rng.random()
+        if z < 0.2:
+            c["skip_no_change"] = False
+            c["allow_empty_side"] = True
+        elif z < 0.35:
+            c["allow_empty_side"] = True
+        elif z < 0.5:
+            c["dedup_delta"] = False
+        elif z < 0.6:
+            c["keep_aam"] = False
+    if rng.random() < 0.35 and len(seeds) >= 3:      # successive build calls on one object: later seeds, repeated seeds
+        k = rng.randint(1, len(seeds) - 1)
+        c["builds"] = [seeds[:k], seeds[k:] + ([seeds[0]] if rng.random() < 0.5 else [])]
+        if rng.random() < 0.3:
+            c["builds"].append(list(seeds))
     return c
 
 
@@ -913,7 +951,7 @@ def nontrivial(case, obs):
         return len(case["items"]) >= 3 and len(set(obs[0][1] + obs[0][0])) >= 2
     if k == "crn":
         # events of at least two different rules, or of a rule that is not the first one
-        ev = obs[0][0][1]
+        ev = obs[0][0][-1][1]
         return len(ev) >= 2 and (len({e[2] for e in ev}) >= 2 or any(e[2] > 0 for e in ev))
     return True
 
@@ -947,14 +985,18 @@ def distribution(cases, obss):
             d["cluster_items"][b] = d["cluster_items"].get(b, 0) + 1
             d["cluster_sizes_tried"] += len(c["sizes"])
         elif k == "runtime":
-            d["runtime"][c["what"]] = len(c["jobs"])
+            d["runtime"][c["what"]] = d["runtime"].get(c["what"], 0) + len(c["jobs"])
         elif k == "crn":
             h = d.setdefault("crn", dict(cases=0, events=0, species=0, tasks=0, steps={}, rules_without_task_before_firing_rule=0,
                                          max_components={}, parallel_runs=0, duplicate_rule_content=0))
-            ev = o[0][0][1]
+            ev = o[0][0][-1][1]
             h["cases"] += 1
             h["events"] += len(ev)
-            h["species"] += len(o[0][0][0])
+            h["species"] += len(o[0][0][-1][0])
+            h["successive_builds"] = h.get("successive_builds", 0) + (len(o[0][0]) > 1)
+            for kopt in ("skip_no_change", "allow_empty_side", "dedup_delta", "keep_aam"):
+                if kopt in c:
+                    h.setdefault("non_default_options", {})[kopt] = h.setdefault("non_default_options", {}).get(kopt, 0) + 1
             h["tasks"] += sum(o[1])
             h["steps"][str(len(o[1]))] = h["steps"].get(str(len(o[1])), 0) + 1
             h["parallel_runs"] += len(o[0]) - 1
